@@ -201,9 +201,23 @@ Definition agree (c : case) : bool :=
   | _, _ => false
   end.
 
+(** names of the runtime nodes ELFI adds to every compiled net itself (batch size, meta data,
+    random state): a user node with such a name would be overwritten by the loaders *)
+Definition reserved_names : list name := ["_batch_size"; "_meta"; "_random_state"]%string.
+
+(** at most one edge per ordered pair of nodes (a networkx DiGraph stores one edge per pair) *)
+Fixpoint edge_pairs_distinct (es : list edge) : bool :=
+  match es with
+  | [] => true
+  | e :: r =>
+      negb (existsb (fun e' => String.eqb (e_src e) (e_src e') && String.eqb (e_dst e) (e_dst e')) r)
+      && edge_pairs_distinct r
+  end.
+
 (** the graphs the property speaks about: named DAGs whose nodes carry exactly one of
     output / operation, without a node already named like an observed twin; requested outputs
-    are nodes or twins *)
+    are nodes or twins; plus the conditions below under which ELFI (and the model) accept a run
+    ([Proofs/C03_Refusal.v]: [wf_case] and no stochastic observed data => the model succeeds) *)
 Definition wf_case (c : case) : bool :=
   let src := k_src c in
   let ns := s_nodes src in
@@ -219,7 +233,33 @@ Definition wf_case (c : case) : bool :=
                        || existsb (fun x : name * sstate =>
                                      String.eqb (observed_name (fst x)) o
                                      && (s_observable (snd x) || s_uses_observed (snd x))) ns)
-             (k_outputs c).
+             (k_outputs c)
+  (* one edge per ordered pair of nodes: the source net is a networkx DiGraph *)
+  && edge_pairs_distinct (s_edges src)
+  (* no user node carries a reserved runtime name: ELFI adds "_batch_size", "_meta" and
+     "_random_state" itself and its loaders set their outputs *)
+  && forallb (fun i => negb (has i ns)) reserved_names
+  (* an observable node is an operation (Simulator, Summary, Distance, ...), never a constant:
+     it has no "_output"; its observed twin gets the observed data or re-runs the operation *)
+  && forallb (fun x : name * sstate =>
+                if s_observable (snd x) then match s_output (snd x) with None => true | Some _ => false end
+                else true) ns
+  (* [model.observed] is a dict (distinct keys) ... *)
+  && nodup_b (map fst (s_observed src))
+  (* ... filled by the constructors of observable nodes only ([observed=] argument) *)
+  && forallb (fun kv : name * value => flag src s_observable (fst kv)) (s_observed src)
+  (* args_to_tuple takes positional arguments only: the parents of an observed-using,
+     not observable, not stochastic node are copied to its args_to_tuple twin, so a named
+     parent makes the twin's call raise (Proofs/C03_Succeeds.v, tuple_named_parent_refused) *)
+  && forallb (fun x : name * sstate =>
+                if negb (s_observable (snd x)) && s_uses_observed (snd x) && negb (s_stochastic (snd x))
+                then forallb (fun pp : name * param => match snd pp with PInt _ => true | PStr _ => false end)
+                             (preds (s_edges src) (fst x))
+                else true) ns
+  (* [with_values] is a dict: distinct keys ... *)
+  && nodup_b (map fst (k_with c))
+  (* ... holding outputs of user nodes (or their twins); the runtime nodes are set by the loaders *)
+  && forallb (fun kv : name * value => negb (mem (fst kv) reserved_names)) (k_with c).
 
 (** the property on the implementation's result *)
 Definition ok (c : case) : bool :=
